@@ -72,6 +72,7 @@ def _run_case(args):
         out["stats"] = ex.stats.as_dict()
         out["samples"] = ex.samples[:3]
         out["notes"] = ex.notes
+        out["transcript"] = ex.transcript
         # replay each counterexample concretely on the real code
         seen = set()
         for cex in ex.cexs:
